@@ -13,7 +13,7 @@ import (
 )
 
 type c10Case struct {
-	Phase   string   `json:"phase"` // init | working | stalled | extfin | reset | resetgap | failreset
+	Phase   string   `json:"phase"` // init | working | stalled | extfin | reset | resetgap | failreset | donegap
 	D       int      `json:"d"`     // how long the first invocation stays in the phase (ms)
 	Offsets []int    `json:"offsets"`
 	Payload kit.Blob `json:"payload"`
@@ -69,6 +69,12 @@ func (c *c10Case) scenario() *Scenario {
 		sc.Actors["ext:e1"] = []Script{{Steps: []Step{{Op: "ext.loop", Events: []string{"INVOKE", "SHUTDOWN"}, OnShut: "ignore"}}, OnTerm: "ignore"},
 			{Steps: []Step{{Op: "ext.loop", Events: []string{"INVOKE", "SHUTDOWN"}, OnShut: "exit0"}}}}
 		sc.Actors["runtime"] = []Script{{Steps: []Step{{Op: "rt.next", Signal: []string{"gotevent"}}, {Op: "sleep", Ms: 5}, {Op: "exit", Code: 1}}}, {Steps: []Step{loop}}}
+	case "donegap":
+		// the first invocation has completed: its reservation is released, its caller has not been told yet (pause point
+		// invoke.released). A caller arriving there is a new invocation of its own; D is how long it stays with the runtime.
+		sc.Hooks = []HookPlan{{Point: "invoke.released", Nth: 1}}
+		sc.Actors["runtime"] = []Script{{Steps: []Step{{Op: "rt.next"}, {Op: "rt.response", ID: "cur", BodyMode: "transform"}, {Op: "rt.next"}, {Op: "sleep", Ms: c.D % 160},
+			{Op: "rt.response", ID: "cur", BodyMode: "transform"}, loop}}}
 	case "resetgap":
 		// the first invocation times out; the extra caller arrives in the last stretch of its reset: the interop server has
 		// just forgotten the first invocation's reservation (vhook reset.serverCleared) but the reset call has not returned
@@ -110,6 +116,14 @@ func (c *c10Case) scenario() *Scenario {
 		return sc
 	}
 	sc.Driver = append(sc.Driver, Step{Op: "invoke", Tag: "i0", Async: true, Payload: &c.Payload, SigIssued: "issued"})
+	if c.Phase == "donegap" {
+		sc.Driver = append(sc.Driver, Step{Op: "hook.wait", Point: "invoke.released", Ms: 4000},
+			Step{Op: "invoke", Async: true, Tag: "x0", Payload: &kit.Blob{Len: 5, Seed: 0, Kind: "ascii"}}, Step{Op: "waitreserved"}, Step{Op: "sleep", Ms: 5},
+			Step{Op: "hook.release", Point: "invoke.released"}, Step{Op: "join", Tag: "i0"}, Step{Op: "join", Tag: "x0"},
+			Step{Op: "invoke", Tag: "i1", Payload: &kit.Blob{Len: 33, Seed: 9, Kind: "ascii"}},
+			Step{Op: "invoke", Tag: "i2", Payload: &kit.Blob{Len: 34, Seed: 10, Kind: "json"}})
+		return sc
+	}
 	if c.Phase == "resetgap" {
 		sc.Driver = append(sc.Driver, Step{Op: "await", Name: "gotevent"}, Step{Op: "hook.wait", Point: "reset.serverCleared", Ms: 4000})
 		for i, off := range c.Offsets {
@@ -358,11 +372,12 @@ func c10Check(c c10Case) kit.Outcome {
 			return out
 		}
 	}
-	if c.Phase == "resetgap" {
-		// by construction (pause point): issued after the server forgot the first reservation, before the reset returned
+	if c.Phase == "resetgap" || c.Phase == "donegap" {
+		// by construction (pause point): issued after the server forgot the first reservation, before the reset (or the
+		// completed invocation's own clean-up) returned
 		parked := false
 		for k := range tr.Events {
-			if e := &tr.Events[k]; e.Kind == "hook.parked" && e.Call == "reset.serverCleared" {
+			if e := &tr.Events[k]; e.Kind == "hook.parked" && (e.Call == "reset.serverCleared" || e.Call == "invoke.released") {
 				parked = true
 			}
 		}
@@ -404,7 +419,7 @@ func c10Check(c c10Case) kit.Outcome {
 }
 
 func c10Gen(t *rapid.T) c10Case {
-	c := c10Case{Phase: rapid.SampledFrom([]string{"init", "working", "stalled", "extfin", "reset", "resetgap", "failreset"}).Draw(t, "phase"),
+	c := c10Case{Phase: rapid.SampledFrom([]string{"init", "working", "stalled", "extfin", "reset", "resetgap", "failreset", "donegap"}).Draw(t, "phase"),
 		D: rapid.IntRange(50, 400).Draw(t, "d"), Payload: genBlob(t, "p", false)}
 	if c.Phase == "extfin" {
 		c.InternalExt = rapid.Bool().Draw(t, "internalExt")
@@ -414,6 +429,9 @@ func c10Gen(t *rapid.T) c10Case {
 		c.Ordered = c.Frontend && rapid.Bool().Draw(t, "ordered")
 	}
 	n := rapid.IntRange(1, 2).Draw(t, "extras")
+	if c.Phase == "donegap" {
+		n = 1
+	}
 	budget := c.D
 	if c.Phase == "reset" || c.Phase == "failreset" {
 		budget = 300
@@ -445,6 +463,7 @@ func c10Fixed() []c10Case {
 		{Phase: "extfin", D: 150, Offsets: []int{10, 40}, Payload: p, InternalExt: true},
 		{Phase: "reset", D: 100, Offsets: []int{50, 100}, Payload: p},
 		{Phase: "failreset", D: 100, Offsets: []int{20, 150}, Payload: p},
+		{Phase: "donegap", D: 60, Offsets: []int{0}, Payload: p},
 		{Phase: "resetgap", D: 120, Offsets: []int{0}, Payload: p},
 		{Phase: "resetgap", D: 60, Offsets: []int{5, 20}, Payload: p},
 	}
